@@ -34,8 +34,8 @@ def mapcoord_cases(ctx, n):
                     x = rng.choice([F(-rng.randint(1, 8), 4), F(s - 1) + F(rng.randint(1, 8), 4)])   # up to two cells outside
                 p.append(q(x))
             pts.append(p)
-        cases.append({"fn": "mapcoord", "kind": f"map_coordinates rank {rank}", "shape": shape, "arr": arr, "points": pts,
-                      "batched": i % 3 != 0, "tol": EXACT})
+        cases.append({"fn": "mapcoord", "kind": f"map_coordinates rank {rank}" + (" integer-typed array" if i % 7 == 6 else ""), "shape": shape,
+                      "arr": arr, "points": pts, "batched": i % 3 != 0, "tol": EXACT, "int_dtype": i % 7 == 6})
     return cases
 
 
